@@ -27,6 +27,7 @@ REGRESS = [
     ("Quantile", "MC_Quantile_F6", "ValuesOK"),
     ("EquiSpaced", "MC_EquiSpaced_prefix", "DoneOK"),
     ("Summary", "MC_Summary_prefix", "MomentAlgebraOK"),
+    ("Correlation", "MC_Correlation_collinear", "StrictCS"),          # exactly collinear variables are among the behaviours
 ]
 
 
